@@ -60,6 +60,7 @@ type persistObs struct {
 	Done     int    `json:"done,omitempty"`
 	Killed   bool   `json:"killed,omitempty"`
 	Readback []persistOut `json:"readback,omitempty"`
+	Raw      [][]int      `json:"raw"` // ids present per bucket afterwards (null = no such bucket), read with bbolt directly
 }
 
 // bytes written behind the wrapper's back, with what encoding/json makes of them per kind
@@ -254,6 +255,45 @@ func (e *persistEnv) exec1(o persistOp) persistOut {
 		return persistOut{R: "corrupted"}
 	}
 	panic("unknown op " + o.Op)
+}
+
+// persistRaw reads the key sets of the two buckets directly (read-only transaction).
+func persistRaw(path string) ([][]int, string) {
+	raw := make([][]int, 2)
+	db, err := bolt.Open(path, 0600, &bolt.Options{Timeout: time.Minute, ReadOnly: true})
+	if err == nil {
+		_ = db.View(func(tx *bolt.Tx) error {
+			for k := 0; k < 2; k++ {
+				b := tx.Bucket([]byte(persistBucketName(k)))
+				if b == nil {
+					continue
+				}
+				raw[k] = []int{}
+				_ = b.ForEach(func(key, _ []byte) error {
+					id := -1
+					for i, s := range persistIds {
+						if s == string(key) {
+							id = i
+						}
+					}
+					raw[k] = append(raw[k], id) // -1 = a key nobody wrote: never in the model
+					return nil
+				})
+				sort.Ints(raw[k])
+			}
+			return nil
+		})
+		_ = db.Close()
+	}
+	items := make([]string, 2)
+	for k := 0; k < 2; k++ {
+		if raw[k] == nil {
+			items[k] = "None"
+		} else {
+			items[k] = "(Some " + cZList(raw[k]) + ")"
+		}
+	}
+	return raw, cList(items)
 }
 
 func persistLoadAllOps() []persistOp {
@@ -528,7 +568,9 @@ func persistRunSeq(ctx *Ctx, in persistIn) (persistObs, string) {
 	for _, o := range in.Ops {
 		obs.Outs = append(obs.Outs, env.exec(o))
 	}
-	coq := cRec("mkCase", "[]", "None", persistCOps(in.Ops), persistCOuts(in.Ops, obs.Outs))
+	raw, craw := persistRaw(env.path)
+	obs.Raw = raw
+	coq := cRec("mkCase", "[]", "None", persistCOps(in.Ops), persistCOuts(in.Ops, obs.Outs), craw)
 	return obs, coq
 }
 
@@ -567,8 +609,8 @@ func persistRunKill(ctx *Ctx, in persistIn, cal *persistKillCal) (persistObs, st
 		panic(err)
 	}
 	// delay: from a bit before the worker's first operation to a bit after its last
-	lo := cal.start * 7 / 10
-	span := (cal.full - lo) * 12 / 10
+	lo := cal.start * 8 / 10
+	span := cal.full - lo
 	delay := lo + time.Duration(int64(span)*int64(in.Frac)/1000)
 	killed, _ := persistRunSub(dir, "persist-worker", delay)
 	var obs persistObs
@@ -615,7 +657,9 @@ func persistRunKill(ctx *Ctx, in persistIn, cal *persistKillCal) (persistObs, st
 	} else {
 		tags = append(tags, "kill-tmpfs")
 	}
-	coq := cRec("mkCase", persistCOps(in.Ops[:obs.Done]), inflight, persistCOps(loads), persistCOuts(loads, obs.Readback))
+	raw, craw := persistRaw(filepath.Join(dir, "fan2go.db"))
+	obs.Raw = raw
+	coq := cRec("mkCase", persistCOps(in.Ops[:obs.Done]), inflight, persistCOps(loads), persistCOuts(loads, obs.Readback), craw)
 	return obs, coq, tags
 }
 
